@@ -10,6 +10,7 @@ ID = "C15"
 TITLE = "Geometry export round-trips every cell with its indexes"
 MC = {"quick": [("MC_Export", "MC_Export.cfg", 4)], "thorough": [("MC_Export", "MC_Export_thorough.cfg", 16)]}
 TRACE = ("Trace_Cells", "Trace_Cells.cfg")
+REPEAT_EVENTS = 2      # see core.check
 THOROUGH_EXTRA_SEEDS = 2
 REQUIRED = ["Export", "via-cli", "fmt-geojson", "fmt-shapefile", "fmt-wkt", "fmt-wkb", "holes",
             "cf1d", "cf2d", "shoc_simple", "shoc_standard", "arakawa", "ugrid"]
